@@ -165,8 +165,40 @@ pub fn expansion_count(p: &str) -> Option<u64> {
 
 fn corrupt(rng: &mut Rng, doc: &mut Vec<u8>, other: &[u8], log: &mut Vec<String>) {
     let n = doc.len();
-    let kind = rng.below(20);
+    let kind = rng.below(21);
     let name = match kind {
+        20 => {
+            // a digit run becomes a value at a boundary of the integer types, or one
+            // that is large without being absurd (a size a careless reader would
+            // allocate or loop for)
+            let runs: Vec<(usize, usize)> = {
+                let mut v = Vec::new();
+                let mut i = 0;
+                while i < n {
+                    if doc[i].is_ascii_digit() {
+                        let mut j = i;
+                        while j < n && doc[j].is_ascii_digit() {
+                            j += 1;
+                        }
+                        v.push((i, j));
+                        i = j;
+                    } else {
+                        i += 1;
+                    }
+                }
+                v
+            };
+            if !runs.is_empty() {
+                let (a, b) = *rng.pick(&runs);
+                let val: &str = rng.pick_str(&[
+                    "0", "00", "255", "256", "65535", "65536", "2147483647", "2147483648", "4294967295", "4294967296",
+                    "9223372036854775807", "9223372036854775808", "18446744073709551615", "18446744073709551616",
+                    "1073741824", "8589934592", "1099511627776", "281474976710656", "999999999999999999", "-1",
+                ]);
+                doc.splice(a..b, val.bytes());
+            }
+            "boundary_number"
+        }
         18 | 19 => {
             // blanks that are not the ASCII space/tab: VT, FF, CR, the ISO-8859-1
             // NEL and NBSP bytes (white space when a byte is read as a char),
@@ -1025,22 +1057,23 @@ fn pipeline_c(
             continue;
         }
         let p = base.join(&e.filename);
-        let r = di.verify_size(&p);
+        let flen = std::fs::metadata(&p).map(|m| m.len() as usize).unwrap_or(0) + 256;
+        let r = metered!(ctx, flen, di.verify_size(&p));
         fe(&r);
         ep!(ctx, "Distinfo::verify_size", r.is_ok());
-        let rs = di.verify_checksums(&p);
+        let rs = metered!(ctx, flen * e.checksums.len().max(1), di.verify_checksums(&p));
         for r in &rs {
             fe(r);
         }
         ep!(ctx, "Distinfo::verify_checksums", rs.iter().all(|r| r.is_ok()));
         for a in ALGS {
-            let r = di.verify_checksum(&p, a);
+            let r = metered!(ctx, flen, di.verify_checksum(&p, a));
             fe(&r);
             ep!(ctx, "Distinfo::verify_checksum", r.is_ok());
         }
         let r = e.verify_size(&p);
         ep!(ctx, "Entry::verify_size", r.is_ok());
-        let _ = e.verify_checksums(&p);
+        let _ = metered!(ctx, flen * e.checksums.len().max(1), e.verify_checksums(&p));
         let r = e.verify_checksum(&p, Digest::SHA512);
         ep!(ctx, "Entry::verify_checksum", r.is_ok());
         let r = Distinfo::calculate_size(&p);
@@ -1904,6 +1937,7 @@ fn count_corruption(ctx: &mut Ctx, name: &str) {
         "insert_unicode" => "insert_unicode",
         "straddle_boundary" => "straddle_boundary",
         "odd_blank" => "odd_blank",
+        "boundary_number" => "boundary_number",
         "empty_metadata_file" => "empty_metadata_file",
         "garbage_metadata_file" => "garbage_metadata_file",
         _ => "other_corruption",
